@@ -38,7 +38,8 @@ NoHdr == [run |-> 0, planner |-> "none", mode |-> "none", lvs |-> 1, maxd |-> 0,
           bias |-> "p", seeded |-> FALSE]
 NoQ == [sc |-> <<>>, goalf |-> <<>>, pidx |-> <<>>]
 NoApi == [pd |-> 0, T |-> 0, road |-> <<>>, gvalid |-> TRUE, road0 |-> 0, q |-> NoQ, st1 |-> <<>>, inited |-> FALSE, panicked |-> FALSE,
-          ninst |-> 0]     \* number of installations (setup / set_problem_definition) so far
+          ninst |-> 0,     \* number of installations (setup / set_problem_definition) so far
+          bmaxd |-> 0, brad |-> 0]   \* largest step / radius in force since the last setup
 
 Init ==
   /\ l = 1 /\ hdr = NoHdr /\ trees = <<<<>>, <<>>>> /\ acc = {} /\ api = NoApi /\ nviol = 0
@@ -49,8 +50,10 @@ Report(v) == IF v = {} THEN TRUE ELSE PrintT("VIOL " \o ToString(hdr.run) \o " "
 \* reported (C08), whatever the following calls of the same run do is a consequence and is not.
 L(cond, label) == IF cond /\ ~api.panicked THEN {label} ELSE {}
 
-Bound == IF hdr.planner = "rrtstar" THEN Max2(hdr.maxd, hdr.rad)
-         ELSE IF hdr.planner = "prm" THEN hdr.rad ELSE hdr.maxd
+\* the bound on the edges of a returned path: edges made earlier were bounded by the parameter values in
+\* force then, so the largest step / radius assigned since the last setup counts
+Bound == IF hdr.planner = "rrtstar" THEN Max2(api.bmaxd, api.brad)
+         ELSE IF hdr.planner = "prm" THEN api.brad ELSE api.bmaxd
 
 (***************************************************************************)
 (* Extension rules (C01, C03, C05, C15, C16) for one extension record.     *)
@@ -69,6 +72,8 @@ ExtLabels(x, accNew, plain) ==
              \cup L(x.orc = 1, "C16/no-add-on-invalid")
              \cup L(plain /\ x.step > hdr.maxd + tol, "C05/edge-length")
              \cup L(plain /\ ~CoversPos(x.cov, x.len, hdr.lvs, tol), "C03/coverage[ext]")
+             \* (a tree edge that was not validated at the resolution is also C15's business)
+             \cup L(plain /\ ~CoversPos(x.cov, x.len, hdr.lvs, tol), "C15/edge-validated")
        ELSE L(x.orc = 0, "C16/extends")
 
 (***************************************************************************)
@@ -93,6 +98,7 @@ StarLabels(x, st, tree) ==
       \cup L(\A m \in {m \in 1 .. n : x.dr[m] = minr} : st.ccr[m] < st.ccr[par], "C17/best-parent")
       \cup L(~st.ceq, "C17/cost-eq")
       \cup L(~CoversPos(st.pcov, st.plen, hdr.lvs, tol), "C03/coverage[parent]")
+      \cup L(~CoversPos(st.pcov, st.plen, hdr.lvs, tol), "C15/edge-validated")
       \cup L(st.pstep > Max2(hdr.maxd, hdr.rad) + tol, "C05/edge-length")
       \cup L(st.pcost + tol < tree[par].c + st.pstep, "C15/cost-mono")
       \cup L(\E i \in 1 .. n : must(i) /\ i \notin R, "C17/rewire-set")
@@ -100,6 +106,7 @@ StarLabels(x, st, tree) ==
       \cup L(\E j \in 1 .. Len(st.rew) : st.rew[j].par # newi, "C17/rewire-set")
       \cup L(\E j \in 1 .. Len(st.rew) : ~st.rew[j].ceq, "C17/cost-eq")
       \cup L(\E j \in 1 .. Len(st.rew) : ~CoversPos(st.rew[j].cov, st.rew[j].len, hdr.lvs, tol), "C03/coverage[rewire]")
+      \cup L(\E j \in 1 .. Len(st.rew) : ~CoversPos(st.rew[j].cov, st.rew[j].len, hdr.lvs, tol), "C15/edge-validated")
       \cup L(\E j \in 1 .. Len(st.rew) : st.rew[j].d > Max2(hdr.maxd, hdr.rad) + tol, "C05/edge-length")
       \cup L(\E j \in 1 .. Len(st.rew) : st.rew[j].c + tol < st.pcost + st.rew[j].d, "C15/cost-mono")
       \cup L(\E j \in 1 .. Len(st.rew) : st.rew[j].i \in 1 .. n /\ st.rew[j].i \in ToSet(Chain(tree, par)), "C15/acyclic")
@@ -144,7 +151,7 @@ EvSetup(e) ==
      /\ trees' = SnapTrees(e.snap)
      /\ acc' = {}
      /\ api' = [pd |-> e.pd, T |-> 0, road |-> SnapRoad(e.snap), road0 |-> 0, q |-> NoQ, st1 |-> api.st1, inited |-> TRUE, panicked |-> api.panicked \/ e.kind = "panic",
-                 ninst |-> api.ninst + 1,
+                 ninst |-> api.ninst + 1, bmaxd |-> e.maxd, brad |-> e.rad,
                  gvalid |-> \A i \in 1 .. Len(e.roots) : e.roots[i].tr = 2 => e.roots[i].valid]
      /\ nviol' = nviol + Cardinality(v)
      \* a problem may live on a different space: resolution and unit are those of the installed one
@@ -152,15 +159,19 @@ EvSetup(e) ==
 
 EvSetPd(e) ==
   /\ Report(L(e.kind = "panic", "C08/panic@" \o e.site))
-  /\ api' = [api EXCEPT !.pd = e.pd, !.panicked = api.panicked \/ e.kind = "panic", !.ninst = api.ninst + 1]
+  /\ api' = [api EXCEPT !.pd = e.pd, !.panicked = api.panicked \/ e.kind = "panic", !.ninst = api.ninst + 1,
+                        !.bmaxd = e.maxd, !.brad = e.rad]
   /\ nviol' = nviol + (IF e.kind = "panic" THEN 1 ELSE 0)
-  /\ UNCHANGED <<hdr, trees, acc>>
+  \* the replaced problem may live on another space: resolution and unit are those of the installed one
+  /\ hdr' = [hdr EXCEPT !.lvs = e.lvs, !.maxd = e.maxd, !.rad = e.rad]
+  /\ UNCHANGED <<trees, acc>>
 
 \* the planner's public parameter fields were assigned: later rules use the new values
 EvSetParams(e) ==
   /\ Report(L(e.kind = "panic", "C08/panic@" \o e.site))
   /\ hdr' = [hdr EXCEPT !.maxd = e.maxd, !.rad = e.rad, !.bias = e.bias]
-  /\ api' = [api EXCEPT !.panicked = api.panicked \/ e.kind = "panic"]
+  /\ api' = [api EXCEPT !.panicked = api.panicked \/ e.kind = "panic",
+                        !.bmaxd = Max2(api.bmaxd, e.maxd), !.brad = Max2(api.brad, e.rad)]
   /\ nviol' = nviol + (IF e.kind = "panic" THEN 1 ELSE 0)
   /\ UNCHANGED <<trees, acc>>
 
